@@ -218,7 +218,7 @@ Ltac step_inv H :=
 
 Ltac sunfold := unfold do_unsub, set_live, set_loop, set_subs, set_subq, set_unsubq, set_dist, set_wk, set_ch, set_rcv,
   set_call, set_cctx, set_sigready, set_pubd, set_issued, set_created, set_unsubcalled, set_owed, set_acc,
-  set_taken, set_done, set_evicted, set_dropped.
+  set_taken, set_done, set_evicted, set_dropped, set_skipped.
 (* the successor state only occurs in the goal (step_inv substitutes it there) *)
 Ltac ssimpl := sunfold; simpl in *.
 
